@@ -37,12 +37,60 @@ def kit():
 
 
 def gen_case(rng):
-    n = rng.randint(2, 6)
+    if rng.random() < 0.35:
+        # several engines writing into one table (shared_ram) under embed paths with a common prefix, advanced in turns
+        return {'kind': 'ramalias', 'shared': True, 'n': rng.randint(2, 3), 'rounds': rng.randint(1, 3),
+                'ts': rng.choice([1.0, 0.5]), 'deep': rng.random() < 0.5}
     return {'kind': 'ramalias', 'chunks': [rng.randint(1, 3) for _ in range(rng.randint(1, 3))],
             'read_between': rng.random() < 0.5, 'ts': rng.choice([1.0, 1.0, 0.5])}
 
 
+def run_shared(c):
+    from vivarium.core.engine import Engine
+    from vivarium.core.emitter import SharedRamEmitter
+    Journal = kit()
+    SharedRamEmitter.saved_data.clear()
+    engines = []
+    with contextlib.redirect_stdout(io.StringIO()):
+        for i in range(c['n']):
+            embed = ('agents', str(i)) if c['deep'] else ('e%d' % i,)
+            engines.append(Engine(
+                processes={'j': Journal({'time_step': c['ts']})},
+                topology={'j': {'journal': ('journal_store',), 'tally': ('tally',), 'count': ('count',)}},
+                emitter={'type': 'shared_ram', 'embed_path': embed}, display_info=False))
+        err = None
+        try:
+            for _ in range(c['rounds']):
+                for eng in engines:
+                    eng.update(1.0)
+        except Exception as e:
+            err = '%s: %s' % (type(e).__name__, str(e)[:200])
+        data = {str(t): r for t, r in engines[0].emitter.get_data().items()}
+        import copy
+        data = copy.deepcopy(data)
+        for eng in engines:
+            eng.end()
+        SharedRamEmitter.saved_data.clear()
+    return {'shared': data, 'err': err}
+
+
+def oracle_shared(c, ob):
+    if ob['err']:
+        return [('engines sharing one history table: %s' % ob['err'], 'shared-table-raised')]
+    for ts, row in ob['shared'].items():
+        k = int(round(float(ts) / c['ts']))
+        for i in range(c['n']):
+            sub = row.get('agents', {}).get(str(i)) if c['deep'] else row.get('e%d' % i)
+            want = {'journal_store': list(range(k)), 'tally': [x * 10 for x in range(k)], 'count': k}
+            if sub != want:
+                return [('shared table, time %s: engine %d wrote %r, the table holds %r' % (ts, i, want, sub),
+                         'shared-row-lost')]
+    return []
+
+
 def run_impl(c):
+    if c.get('shared'):
+        return run_shared(c)
     from vivarium.core.engine import Engine
     Journal = kit()
     reads = []
@@ -60,6 +108,8 @@ def run_impl(c):
 
 
 def oracle(c, ob, rng):
+    if c.get('shared'):
+        return oracle_shared(c, ob)
     for data in ob['reads']:
         for ts, row in data.items():
             k = int(round(float(ts) / c['ts']))          # number of updates applied by that time
@@ -72,8 +122,12 @@ def oracle(c, ob, rng):
 
 
 def nontrivial(c, ob):
+    if c.get('shared'):
+        return len(ob['shared']) >= 2
     return len(ob['reads'][-1]) >= 3
 
 
 def stat_key(c, ob):
+    if c.get('shared'):
+        return 'ramalias/shared/deep=%s' % c['deep']
     return 'ramalias/read_between=%s' % c['read_between']
